@@ -13,7 +13,10 @@
  *   run <dyn> <mSub> <iterMax> <ppolicy> <aa> <ni> <minTs> <maxTs> <minF> <maxF> <nt> time*nt <na> (kind factor at)*na
  *        runs GenericSolver::execute with injected failures, then replays the accepted steps only on a
  *        fresh copy of the initial state, dumps both final states
- *   runs <ns> <nm> <dyn> ... (as run)   the same on a study made of <ns> structures, each with <nm> model states
+ *   runs <ns> <nm> <dyn> ... (as run)   the same on a study made of <ns> structures, each with <nm> model states;
+ *        the fields that every attempt recomputes from the evolutions (mprops1, esv0, desv, e_th0, e_th1) are
+ *        written by the REAL computeMaterialProperties / computeExternalStateVariables / computeThermalExpansion
+ *        (both overloads) of CurrentState.cxx, as SingleStructureScheme::prepare does, not by the mock physics
  */
 #include <cmath>
 #include <iostream>
@@ -26,6 +29,8 @@
 #include "MTest/GenericSolver.hxx"
 #include "MTest/AccelerationAlgorithm.hxx"
 #include "MTest/AccelerationAlgorithmFactory.hxx"
+#include "MTest/Evolution.hxx"
+#include "MTest/CurrentState.hxx"
 #include "C48/mock.hxx"
 #include "C48/mockbehaviour.hxx"
 #include "gen50.hxx"
@@ -121,12 +126,86 @@ static void put(real& v, Hasher& h) { v = h.unit(); }
 template <typename T>
 static void put(T&, Hasher&) {}
 
+//! `runs`: the recomputed fields of CurrentState come from the real functions of CurrentState.cxx
+static bool g_real_prepare = false;
+static bool is_really_recomputed(const char* n) {
+  const std::string s = n;
+  return g_real_prepare && ((s == "mprops1") || (s == "esv0") || (s == "desv") || (s == "e_th0") || (s == "e_th1"));
+}
+
 struct World {
   mtest::StudyCurrentState st;
   std::vector<std::string> names;
   std::vector<std::shared_ptr<MockBehaviour>> models;
   unsigned ni = 1;
   unsigned nm = 0;
+  //! evolutions of the material properties, external state variables, temperature and thermal expansions
+  mtest::EvolutionManager evm;
+  //! default values of the material properties the user did not define
+  mtest::EvolutionManager dvm;
+  std::shared_ptr<MockBehaviour> beh;
+
+  template <typename F>
+  void each_cs(mtest::StudyCurrentState& s, F&& f) {
+    for (const auto& sn : names) {
+      auto& scs = s.getStructureCurrentState(sn);
+      for (auto& cs : scs.istates) f(cs);
+      for (auto& m : models) f(scs.getModelCurrentState(*m));
+    }
+  }
+  //! what SingleStructureScheme::prepare does at the beginning of every attempt, with the real functions
+  void real_prepare(mtest::StudyCurrentState& s, const real t, const real dt) {
+    if (evm.empty()) {
+      auto lpi = [](std::initializer_list<real> ts, std::initializer_list<real> vs) {
+        return std::make_shared<mtest::LPIEvolution>(std::vector<real>(ts), std::vector<real>(vs));
+      };
+      evm["mp0"] = lpi({0., 2., 8.}, {150., 170., 120.});
+      dvm["mp1"] = std::make_shared<mtest::ConstantEvolution>(0.3);
+      dvm["mp0"] = std::make_shared<mtest::ConstantEvolution>(-1.);
+      evm["esvA"] = lpi({0., 1., 3., 10.}, {293., 400., 350., 900.});
+      evm["esvB"] = lpi({0., 5.}, {1., -1.});
+      evm["Temperature"] = lpi({0., 1.5, 6., 12.}, {293., 500., 450., 800.});
+      evm["ThermalExpansion"] = lpi({0., 12.}, {1.e-5, 2.e-5});
+      evm["ThermalExpansion1"] = lpi({0., 12.}, {1.e-5, 3.e-5});
+      evm["ThermalExpansion2"] = std::make_shared<mtest::ConstantEvolution>(2.e-5);
+      evm["ThermalExpansion3"] = lpi({0., 4., 12.}, {3.e-5, 1.e-5, 2.e-5});
+    }
+    unsigned k = 0;
+    each_cs(s, [&](mtest::CurrentState& cs) {
+      mtest::computeMaterialProperties(cs, evm, dvm, {"mp0", "mp1"}, t, dt);
+      mtest::computeExternalStateVariables(cs, evm, {"esvA", "esvB"}, t, dt);
+      if (k % 4 == 0) {
+        mtest::computeThermalExpansion(cs, evm, t, dt);
+      } else {
+        mtest::computeThermalExpansion(cs, evm, t, dt, static_cast<unsigned short>(k % 4));
+      }
+      ++k;
+    });
+  }
+  //! sizes and behaviour expected by the real functions (after the fields have been tagged)
+  void size_for_real_prepare() {
+    if (beh == nullptr) {
+      beh = std::make_shared<MockBehaviour>();
+      beh->ndv = 2;
+      beh->D.assign(4, 0.);
+    }
+    each_cs(st, [this](mtest::CurrentState& cs) {
+      cs.behaviour = beh;
+      for (auto* v : {&cs.e_th0, &cs.e_th1}) {
+        const auto tag = v->empty() ? real(0) : (*v)[0];
+        v->resize(6);
+        for (std::size_t i = 2; i < 6; ++i) (*v)[i] = tag + 0.125 * static_cast<real>(i);
+      }
+      cs.Tref = 293.15;
+      for (unsigned short i = 0; i != 3; ++i)
+        for (unsigned short j = 0; j != 3; ++j) cs.r(i, j) = (i == j) ? 1. : 0.;
+      // a rotation about the third axis (the orthotropic thermal expansions are turned into the global frame)
+      cs.r(0, 0) = 0.8;
+      cs.r(0, 1) = -0.6;
+      cs.r(1, 0) = 0.6;
+      cs.r(1, 1) = 0.8;
+    });
+  }
 
   void build(const unsigned ns, const unsigned ni_, const unsigned nm_, const std::size_t psz) {
     ni = ni_;
@@ -343,9 +422,10 @@ struct Physics {
     auto h = view(s, false);
     h.add(t);
     h.add(dt);
-    w->visit(s, [&h](const char*, auto& f, const char* cls) {
-      if (std::string(cls) == "recomp") put(f, h);
+    w->visit(s, [&h](const char* n, auto& f, const char* cls) {
+      if ((std::string(cls) == "recomp") && !is_really_recomputed(n)) put(f, h);
     });
+    if (g_real_prepare) w->real_prepare(s, t, dt);
   }
   void compute(mtest::StudyCurrentState& s, Vector& r, const real t, const real dt, const int call) {
     if (tag_mode) {
@@ -479,6 +559,7 @@ static std::string op_run(Tokens& tk, const unsigned ns = 1, const unsigned nm =
     }
     w->st.period = 1;
     w->st.dt_1 = 0;  // as in a fresh StudyCurrentState: no previous time step yet
+    if (g_real_prepare) w->size_for_real_prepare();
     w->st.revert();
     return w;
   };
@@ -567,6 +648,10 @@ int main() {
       } else if (op == "runs") {
         const auto ns = static_cast<unsigned>(tk.integer());
         const auto nm = static_cast<unsigned>(tk.integer());
+        struct Real {
+          Real() { g_real_prepare = true; }
+          ~Real() { g_real_prepare = false; }
+        } real_prepare;
         ans = op_run(tk, ns, nm);
       } else {
         ans = "bad-op";
